@@ -709,35 +709,59 @@ T // c39
 '\x00' } // c42a
   // c42b
 ")).
-Eval vm_compute in ("<<<M1337>>>" ++ check (runes_of_ascii "options {
-    ArrayPrefixLenType = u64;
-    FixedStringPadFromLeft = true;
-    FixedStringPadChar = '0';
-}
-packet Quote {
-}
-packet Ack {
-    repeat InNote66 {
-        u8 pad0,
-    },
-}
-packet Reject {
-}
-root packet Order {
-    Quote,
-    repeat Reject,
-    string venue,
-    string seqNo,
-    uint32 Ref,
-    u16 lastPx,
-    u32 clOrdID @lengthOf(Body),
-    match lastPx as Body {
-        190 : Reject,
-        186 : Quote,
-        22 : Ack,
-    },
-    u16 Flags @calculatedFrom(""CRC32""),
-}
+Eval vm_compute in ("<<<M1677>>>" ++ check (runes_of_ascii "
+packet
+    leftPad // trailing space 
+      {
+
+@tag(	10
+
+    )  @tag(
+
+007 )@lengthOf(
+a1
+) 
+    // a // b
+//
+  repeat
+metadata
+    ,
+
+} 	 // " ++ [128512]%N ++ runes_of_ascii " emoji
+options
+	// @lengthOf(
+  	{lengthOf =""" ++ [128512]%N ++ runes_of_ascii """
+;
+    }	packet  T
+	// " ++ [27880; 37322]%N ++ runes_of_ascii "
+	{
+A
+
+{ 
+      //
+    	// `tick` ""quote"" 'q'
+
+	tag
+@calculatedFrom(	""abc""
+)
+
+,  } 
+,@lengthOf(  matchKey
+    )
+    string
+
+    Header	@lengthOf(
+
+    metadata)
+
+    ,
+
+leftPad
+    // trailing space 
+  @calculatedFrom(  ""a\""b"" ) `crlf
+line` ,
+
+    }
 ")).
 Eval vm_compute in ("<<<M180>>>" ++ check (runes_of_ascii "options
     // @lengthOf(
@@ -882,22 +906,37 @@ MetaData Packet
 x ),
 }
 ")).
-Eval vm_compute in ("<<<M1501>>>" ++ check (runes_of_ascii "packet len {
-    // trailing space 
-    repeat zchar f32a `// not a comment`,
-    @tag(255)
-    repeat Pad {
-        x T,
-    },
-    @calculatedFrom(""{,}"")
-    repeat leftPad {
-        u64 u8x `tab	here`,
-        o Packet,
-        char[] chars,
-    },
-    @tag(3)
-    float64 i8i8,
-}")).
+Eval vm_compute in ("<<<M1559>>>" ++ check (runes_of_ascii "
+root 	 // trailing space 
+packet
+	int {
+    f32a
+	@calculatedFrom( ""packet""
+
+)
+
+`
+`
+
+    ,	}
+
+    options
+{
+	rootA
+// @lengthOf(
+	= ""\" ++ [233]%N ++ runes_of_ascii """ ;
+    }packet i8i8
+    {
+	// trailing space 
+uint8
+uint8x @lengthOf(
+    string_	)//	t
+    ,
+i32  tag //	t
+@lengthOf(
+	Logon 
+),
+    }")).
 Eval vm_compute in ("<<<M254>>>" ++ check (runes_of_ascii "packet  zchar
 { zchar[ 42
 //
